@@ -439,6 +439,10 @@ def feasible_reach(fn, src, targets, avoid, limit=40000, overrides=None, rearm=F
                     tv = _vget(V, o['pl']['l'])
                     if tv and tv[0] == 'tup' and o['pl']['p'][0]['i'] < len(tv[1]):
                         val = tv[1][o['pl']['p'][0]['i']]
+                elif o['k'] in ('copy', 'move') and len(o['pl']['p']) == 2 and o['pl']['p'][0]['k'] == 'downcast' and o['pl']['p'][1]['k'] == 'field':
+                    tv = _vget(V, o['pl']['l'])
+                    if tv and tv[0] == 'enum' and len(tv) > 2 and o['pl']['p'][1]['i'] < len(tv[2]):
+                        val = tv[2][o['pl']['p'][1]['i']]
             elif k == 'agg' and rv.get('ak') == 'tuple':
                 comps = []
                 for o2 in rv['ops']:
@@ -451,7 +455,14 @@ def feasible_reach(fn, src, targets, avoid, limit=40000, overrides=None, rearm=F
                 if any(c is not None for c in comps):
                     val = ('tup', tuple(comps))
             elif k == 'agg' and rv.get('ak') == 'adt':
-                val = ('enum', rv['variant'])
+                # the variant, and what is known about its payload fields (an enum carried inside an enum: `Stop(DrainEnd::Result(v))`)
+                comps = []
+                for o2 in rv.get('ops', []):
+                    if o2['k'] in ('copy', 'move') and not o2['pl']['p']:
+                        comps.append(_vget(V, o2['pl']['l']))
+                    else:
+                        comps.append(None)
+                val = ('enum', rv['variant'], tuple(comps)) if any(c is not None for c in comps) else ('enum', rv['variant'])
             elif k == 'unop' and rv['op'] == 'Not' and rv['a']['k'] in ('copy', 'move') and not rv['a']['pl']['p']:
                 v0 = _vget(V, rv['a']['pl']['l'])
                 if v0 and v0[0] == 'bool':
